@@ -207,3 +207,10 @@ Proof.
   subst k. destruct (rod_antisym ROps m) as [wx wy wz]. apply V3_inj; vunf; field; subst s; lra.
 Qed.
 
+
+(* fixed code: sqrt(clip(x, 0, inf)) is sqrt x on x >= 0 *)
+Lemma diag_root_nonneg d : 0 <= (d + 1) * (1 / 2) -> rod_diag_root ROps d = sqrt ((d + 1) * (1 / 2)).
+Proof.
+  intros H. unfold rod_diag_root, rod_half, nfrac, nmax, n0, n1; rops.
+  destruct (Rleb_spec ((d + 1) * (1 / 2)) 0); [|reflexivity]. f_equal. lra.
+Qed.
